@@ -321,6 +321,10 @@ func (ex *Exec) assertProp(fr *frame, c *Term, msg string) {
 		if c.val != 0 {
 			return
 		}
+		// earlier (symbolic, deferred) assertions of this path are decided
+		// first: the first assertion that can fail is the one reported, as a
+		// native run under the model would.
+		ex.flushAsserts()
 		v := ex.mkViolation("assert", msg, where, nil)
 		if v == nil {
 			panic(pathAbort{kind: "inconclusive", reason: "assert false but path model unavailable: " + msg})
